@@ -328,7 +328,7 @@ func cmdCheck(o options, prop string) int {
 				n++ // claimed under another property only
 				continue
 			}
-			if it.sweep && it.fi.Spec == nil {
+			if it.sweep && (it.fi.Spec == nil || it.fi.Spec.Assumed) {
 				// sweep: safety classes only
 				switch ob.Class {
 				case "panic", "vacuity", "guarded-by", "pre", "atomic":
